@@ -371,6 +371,8 @@ def impl(seed):
     }
     I["unescape"] = filters.html_entities_unescape
     I["tmpl"] = {n: Template("${v | %s}" % n).render_unicode for n in ("h", "x", "u", "entity", "trim")}
+    # the template-wide route: <%page expression_filter=.../> over several expressions of one template
+    I["tmplpage"] = {n: Template('<%%page expression_filter="%s"/>${v}\x00${v}\x00${v}' % n).render_unicode for n in ("h", "x", "u", "entity", "trim")}
     I["dec"] = []
     for std, alias in zip(("utf-8", "latin-1", "ascii"), d["dec"]):
         I["dec"].append(
@@ -511,7 +513,13 @@ def check_string(s, st, I, tmpl=True, parts=ALL_PARTS, charsets=None, decs=None)
                 viol.append((name, route, "raises " + type(out).__name__, "%s raises" % name, "%s: %s" % (type(out).__name__, str(out)[:200])))
                 continue
             if route == "template" and prev is not None and str(prev) == out:
-                continue  # same text as the direct call: already judged
+                # same text as the direct call: already judged.  The page-wide route must give that text for every
+                # expression of the template
+                okp, outp = call(I["tmplpage"][name], v=s)
+                nev += 1
+                if not okp or outp != "\x00".join([out] * 3):
+                    viol.append((name, "page-filter", "differs from ${v | %s}" % name, "<%%page expression_filter> applies the filter once to every expression", "%r" % ((outp if okp else "%s: %s" % (type(outp).__name__, outp)),)[:1] and (str(outp)[:200] if okp else "%s: %s" % (type(outp).__name__, str(outp)[:160]))))
+                continue
             prev = out
             orc[name] += 1
             if name in ("h", "x"):
